@@ -7,7 +7,7 @@ from . import docs, tokenlevel, c19
 DIALECTS = ["PDS3", "ODL", "PVL", "ISIS", "Omni"]
 
 
-def lib_cells(text):
+def lib_cells(text, path=None):
     """the library calls the tool is a front end of, made directly on fresh instances (as specified in Frontends.tla)"""
     import pvl, pvl.grammar as G, pvl.decoder as D, pvl.encoder as E, pvl.parser as P
     mk = {
@@ -22,7 +22,10 @@ def lib_cells(text):
         g, dc, pc, ec = mk[d]()
         dec = dc(grammar=g)
         try:
-            m = pvl.loads(text, parser=pc(grammar=g, decoder=dec))
+            if isinstance(text, bytes):      # a label followed by binary data: "that dialect's load of the file"
+                m = pvl.load(path, parser=pc(grammar=g, decoder=dec))
+            else:
+                m = pvl.loads(text, parser=pc(grammar=g, decoder=dec))
             try:
                 pvl.dumps(m, encoder=ec(grammar=g, decoder=dec))
                 cells[d] = {"loads": True, "encodes": True}
@@ -102,7 +105,7 @@ def _invoke(job):
             except BaseException as e:
                 completed = False
             rows = parse_report(buf.getvalue(), files) if completed else []
-            lib = [{"file": f, "cells": {d: {"loads": c["loads"], "encodes": c["encodes"]} for d, c in lib_cells(texts[i - 1]).items()}}
+            lib = [{"file": f, "cells": {d: {"loads": c["loads"], "encodes": c["encodes"]} for d, c in lib_cells(texts[i - 1], paths[i - 1]).items()}}
                    for f, i in zip(files, inv["files"])]
             return {"ev": "validate", "nfiles": len(files), "rows": rows, "lib": lib, "completed": completed, "report": buf.getvalue()[:2000]}
         fmt = inv["fmt"]
@@ -153,6 +156,9 @@ def run(ctx, rep):
     mis = [tokenlevel.concretise(c["toks"], "\n") for c in tok if c["o"]["verdict"] == "accept" and c["o"]["errs"]]
     texts += rej[:: max(1, len(rej) // (40 if ctx.thorough else 8))] + mis[:: max(1, len(mis) // (40 if ctx.thorough else 8))]
     texts += ["\ufeffNAME = 1\nb = 'x'\nEND\n", "a = " + "(" * 2500 + "1" + ")" * 2500 + "\nEND\n", "S = {1.5, 2.5}\nEND\n",
+              "FILTERS = {1 <m>, 2 <m>}\nEND\n", "u = 5 <m/s^2>\nv = (1, 2) <cm**-1>\nEND\n",
+              b"A = 1\r\nB = 'x'\r\nGROUP = G\r\n  C = (1, 2)\r\nEND_GROUP = G\r\nEND\r\n" + bytes([0xff, 0xfe, 0x00, 0x80, 0x41]) * 60,
+              b"A = 1\nEND\n\x00\x00" + bytes(range(128, 256)) * 3,
               "a = {1.5, 2}\nb = 2001-01-01\nEND\n", "s = 'x'\nq = 5 <m>\nGROUP = g\n  t = 12:00:00\nEND_GROUP\nEND\n", "a = \"é\"\nEND\n"]
     for f in sorted(glob.glob(os.path.join(REPO, "tests", "data", "**", "*"), recursive=True)):
         if os.path.isfile(f) and os.path.getsize(f) < 20000:
@@ -166,8 +172,8 @@ def run(ctx, rep):
         paths = []
         for i, t in enumerate(texts, 1):
             p = os.path.join(tmpdir, "f%03d.lbl" % i)
-            with open(p, "w", encoding="utf-8", newline="") as f:
-                f.write(t)
+            with open(p, "wb") as f:
+                f.write(t if isinstance(t, bytes) else t.encode("utf-8"))
             paths.append(p)
         cfg = os.path.join(ctx.scratch, "fe.cfg")
         with open(cfg, "w") as f:
@@ -183,6 +189,6 @@ def run(ctx, rep):
     pairs = []
     for inv, ev in zip(invs, evs):
         ev2 = {k: v for k, v in ev.items() if k != "report"}
-        pairs.append(({"tool": inv["tool"], "files": [texts[i - 1][:200] for i in inv["files"]], "fmt": inv["fmt"]}, ev2))
+        pairs.append(({"tool": inv["tool"], "files": [texts[i - 1][:200] if isinstance(texts[i - 1], str) else repr(texts[i - 1][:120]) for i in inv["files"]], "fmt": inv["fmt"]}, ev2))
     c19.judge(ctx, rep, pairs, "invocation")
-    rep.sample({"invocation": invs[3], "first_file": texts[invs[3]["files"][0] - 1][:200]})
+    rep.sample({"invocation": invs[3], "first_file": str(texts[invs[3]["files"][0] - 1][:200])})
